@@ -20,7 +20,7 @@ OFF_MAX = 64800
 
 META = {
     "property": "C07",
-    "proof_modules": ["PyodaProofs.C07", "PyodaProofs.C07b", "PyodaProofs.C07Stepped", "PyodaProofs.C07Reformat", "PyodaProofs.C07Instances", "PyodaProofs.C07DateTime", "PyodaProofs.C07Text", "PyodaProofs.C07TextInstances", "PyodaProofs.C07Duration"],
+    "proof_modules": ["PyodaProofs.C07", "PyodaProofs.C07b", "PyodaProofs.C07Stepped", "PyodaProofs.C07Reformat", "PyodaProofs.C07Instances", "PyodaProofs.C07DateTime", "PyodaProofs.C07Text", "PyodaProofs.C07TextInstances", "PyodaProofs.C07Duration", "PyodaProofs.C07Segmented", "PyodaProofs.C07SegmentedInstances"],
     "drivers": ["drv_text"],
     "theorems": [
         "Pyoda.C07.parseDigits_leftPad",
@@ -106,6 +106,19 @@ META = {
         "Pyoda.C07.dur_value",
         "Pyoda.C07.durRoundtrip_generic_roundtrip",
         "Pyoda.C07.durJson_generic_roundtrip",
+        "Pyoda.C07.spec_nonDigit",
+        "Pyoda.C07.spec_notChar",
+        "Pyoda.C07.spec_notCharCI",
+        "Pyoda.C07.followF_sound",
+        "Pyoda.C07.delimitedF_stepsOK",
+        "Pyoda.C07.lastSafeList_sound",
+        "Pyoda.C07.segs_roundtrip",
+        "Pyoda.C07.segFollow_sound",
+        "Pyoda.C07.delimitedSegs_segsOK",
+        "Pyoda.C07.segmented_roundtrip",
+        "Pyoda.C07.embedded_compiles",
+        "Pyoda.C07.embedded_delimited",
+        "Pyoda.C07.embedded_generic_roundtrip",
     ],
     "trusted_base": [
         "float step of _ValueCursor._parse_fraction (int(result * math.pow(10.0, scale - count))) is exact for at most 9 digits (products below 2^53); sampled by suite text.num",
@@ -116,7 +129,8 @@ META = {
         "generic engine (PyodaModel/Text/Stepped, Engine, Buckets; tied to the code by suites text.pat.compile/fmt/parse): stepped_roundtrip and pattern_roundtrip hold for every culture record and every Delimited list of steps of LocalTime, LocalDate (ISO), LocalDateTime (ISO, any template), Offset, AnnualDate (any template) and Duration patterns: literal / padded numeric / fraction (f, F, .F, ;F) / ';' / sign steps and the TEXT steps month names (MMM, MMMM; genitive and plain tables searched together), day names (ddd, dddd), am/pm designators (t, tt), era names (g) and the calendar id (c, ISO values); 'Representable' is stated as: the value is determined by the projection of its fields onto the slots the pattern sets; it is discharged for LocalTimePattern.extended_iso, LocalDatePattern.iso, the long Offset pattern, LocalDateTimePattern.extended_iso, the invariant long-date pattern 'dddd, dd MMMM yyyy' (every date of the common era), 'hh:mm tt' (every whole minute), AnnualDatePattern.iso (every annual date) and DurationPattern.roundtrip '-D:hh:mm:ss.FFFFFFFFF' and json_roundtrip '-H:mm:ss.FFFFFFFFF' for EVERY Duration from min_value to max_value inclusive (…_generic_roundtrip); other patterns instantiate it case by case; the share of generated patterns for which the decidable criterion Delimited holds is recorded under notes",
         "text steps: Delimited includes the decidable culture conditions NamesOK = monthNamesOK / dayNamesOK (every name of the table used on format is non-empty and no other position of the tables searched on parse holds a name of the same length equal to it up to ASCII case), amPmOK (t: first characters differ up to case; tt: the shorter designator is not a prefix of the longer up to case), eraOK (scanning the era names in parse order, the first name matching a primary name is that name) AND that the literal/field that follows a text step cannot continue a written name into a longer candidate (monthDanger / dayDanger / amPmDanger / eraDanger = the characters by which some candidate strictly extends a formatted name; Follow.notCharCI); the core theorem is parseLongest_formatted; the conditions are evaluated per run by the model (op cu.names, suite text.names, compared with the harness's own evaluation on the code's format info) and cultures failing them are listed in the notes together with concrete values that do not round-trip on the real code (e.g. 'h:mm t' where both designators start with the same character; 'MMM.'-style patterns where one month table has 'Jan' and the other 'Jan.'): these are properties of the culture data, not of the engine; case folding is ASCII in the model (texts and cultures with non-ASCII names are compared by the direct oracles only, the model answers !dom)",
         "LocalDateTime custom patterns (one step list over date and time fields, combined bucket dtValue = _combine_buckets incl. the 24:00 roll-over, any ISO template value) are inside the engine (datetime_pattern_roundtrip); Representable is discharged for LocalDateTimePattern.extended_iso for every value and every template with whole seconds (isoDateTime_generic_roundtrip; an omitted optional fraction takes the template's fraction, example in C07DateTime.lean); tied to LocalDateTimePattern.create(text, culture, template) by suites text.pat.compile/fmt/parse (type tokens datetime / datetime:y,m,d,nod)",
-        "NOT covered by theorems (correspondence and direct oracles only): round trip through patterns with embedded parts (ld<...>, lt<...>: modelled as Pat.segmented and tied to the code by the suites, but stepped_roundtrip is stated for plain step lists), the calendar field for non-ISO values, the Instant <-> UTC date-time conversion of the Instant adapter (Instant patterns are LocalDateTime patterns over the UTC fields: type token instant), non-ISO calendars, non-ASCII case folding, ICU culture data extraction; reformat_idempotent (generic engine) covers patterns of literals and full-width non-negative numeric fields with distinct slots at the level of steps and buckets (the accessors must return the parsed field values); variable-width fields, fractions, signs and the sign-carrying 'uuuu' are excluded (negative zero, optional parts)",
+        "patterns with embedded parts (ld<...>, lt<...> = Pat.segmented): segmented_roundtrip holds for every culture record, every template and every list of segments passing the decidable criterion DelimitedSegs (Delimited segment by segment — plain steps in the outer culture / field set, an embedded pattern in its own — each step against the text the FOLLOWING segments write: followF / segFollow; the trailing-dot buffer invariant is threaded through the segments), for values whose fields the steps can hold (SegValOK) and that the embedded patterns and the outer bucket represent (RepresentableSeg: each embedded pattern's own calculate_value returns its part, dtValueE of the outer bucket returns the value); discharged for ld<yyyy-MM-dd>'T'lt<HH:mm:ss> (embedded_compiles: it is what compileDateTime builds; embedded_generic_roundtrip: every common-era date with every time of day whose fraction of a second is the template's, any common-era template); DelimitedSegs is evaluated by the model on every generated pattern with embedded parts (op pat.delim = 3 / 2, share recorded under notes)",
+        "NOT covered by theorems (correspondence and direct oracles only): the calendar field for non-ISO values, the Instant <-> UTC date-time conversion of the Instant adapter (Instant patterns are LocalDateTime patterns over the UTC fields: type token instant), non-ISO calendars, non-ASCII case folding, ICU culture data extraction; reformat_idempotent (generic engine) covers patterns of literals and full-width non-negative numeric fields with distinct slots at the level of steps and buckets (the accessors must return the parsed field values); variable-width fields, fractions, signs and the sign-carrying 'uuuu' are excluded (negative zero, optional parts)",
         "Instant/LocalDate day-number <-> (year, month, day) conversion is outside the Text model (the harness passes date fields)",
     ],
     "rule": "distinct = distinct (pattern, culture, value) triple or op line; non-trivial = the pattern was created and the value formatted",
@@ -294,6 +308,40 @@ def create(ty, text, cname="", calid=None):
     if len(_PATS) > 20000:
         _PATS.clear()
     _PATS[k] = p
+    return p
+
+
+def template_value(ty, tmpl):
+    """(calid, y, m, d[, nod]) -> LocalDate / LocalDateTime template value"""
+    P = _P()
+    d = P.LocalDate(tmpl[1], tmpl[2], tmpl[3], cal(tmpl[0]))
+    if ty == "date":
+        return d
+    return d.at(P.LocalTime.from_nanoseconds_since_midnight(tmpl[4] if len(tmpl) > 4 else 0))
+
+
+_TMPL_PATS = {}
+
+
+def create_tmpl(ty, text, cname, tmpl, how="create", fresh=False):
+    """LocalDate / LocalDateTime pattern whose template value is (calid, y, m, d[, nod]), built through the public API in
+    one of three ways: create(text, culture, template) | create(text, culture).with_template_value(template) |
+    create(text, culture).with_calendar(calendar of the template)"""
+    k = (ty, text, cname, tmpl, how)
+    if not fresh and k in _TMPL_PATS:
+        return _TMPL_PATS[k]
+    cls = pcls(ty)
+    if how == "create":
+        p = cls.create(text, culture(cname), template_value(ty, tmpl))
+    elif how == "with_template_value":
+        p = cls.create(text, culture(cname)).with_template_value(template_value(ty, tmpl))
+    elif how == "with_calendar":
+        p = cls.create(text, culture(cname)).with_calendar(cal(tmpl[0]))
+    else:
+        raise ValueError(how)
+    if len(_TMPL_PATS) > 20000:
+        _TMPL_PATS.clear()
+    _TMPL_PATS[k] = p
     return p
 
 
@@ -794,8 +842,11 @@ def rep_date(rng, info, pat, calid):
     ccal = cal(calid)
     if "c" not in f and tv.calendar.id != calid:
         return None
-    if "c" in f and tv.calendar.id != calid:
-        tv = None
+    # With a calendar field the value's calendar may differ from the template's: fields the pattern lacks are still taken
+    # from the template value BY NUMBER (year, month, day, century of the two-digit year); the era is the template's when
+    # the value's calendar has that era (ISO / Gregorian / Julian share theirs), and the calendar's only era otherwise.
+    eras = list(ccal.eras())
+    era_eff = tv.era if tv.era in eras else (eras[0] if len(eras) == 1 else None)
     for _ in range(30):
         v = gen_value(rng, "date", calid)
         if v is None:
@@ -805,12 +856,12 @@ def rep_date(rng, info, pat, calid):
             if "y" in f:
                 x = P.LocalDate(y, m, d, ccal)
                 if "g" not in f:
-                    if tv is None:
+                    if era_eff is None:
                         return None
-                    if x.era != tv.era:
+                    if x.era != era_eff:
                         continue
                 if f["y"] == 2:
-                    if tv is None:
+                    if era_eff is None:
                         return None
                     # two-digit years: the 100-year window ending at century(template)+two_digit_year_max (30)
                     cent = tv.year_of_era // 100
@@ -818,25 +869,22 @@ def rep_date(rng, info, pat, calid):
                     lo, hi = (cent - 1) * 100 + 31, cent * 100 + 30
                     if cent <= 1:
                         lo, hi = cent * 100, cent * 100 + 99
-                    if not (lo <= yoe <= hi) or x.era != tv.era:
-                        yy = rng.randint(max(lo, ccal.get_min_year_of_era(tv.era)), min(hi, ccal.get_max_year_of_era(tv.era)))
+                    if not (lo <= yoe <= hi) or x.era != era_eff:
+                        lo2, hi2 = max(lo, ccal.get_min_year_of_era(era_eff)), min(hi, ccal.get_max_year_of_era(era_eff))
+                        if lo2 > hi2:
+                            return None
+                        yy = rng.randint(lo2, hi2)
                         try:
-                            y = ccal.get_absolute_year(yy, tv.era)
+                            y = ccal.get_absolute_year(yy, era_eff)
                         except Exception:  # noqa: BLE001
                             continue
             else:
-                if tv is None:
-                    return None
                 y = tv.year
         if "M" not in f and "Mt" not in f:
-            if tv is None:
-                return None
             m = tv.month
         if "Mt" in f and m > 12:
             m = rng.randint(1, 12)
         if "d" not in f:
-            if tv is None:
-                return None
             d = tv.day
         try:
             x = P.LocalDate(y, m, d, ccal)
@@ -897,7 +945,8 @@ def representable(rng, ty, info, pat, calid="ISO"):
         d = rep_date(rng, info, pat, calid)
         if d is None:
             return None
-        return d + (rep_time(rng, info, 0),)
+        tv = getattr(pat, "_LocalDateTimePattern__template_value", None)
+        return d + (rep_time(rng, info, tv.nanosecond_of_day if tv is not None else 0),)
     if ty == "instant":
         d = rep_date(rng, info, None, "ISO")
         if d is None:
@@ -1145,16 +1194,15 @@ def oracle_custom(case):
     tcal = case[5] if len(case) > 5 else calid
     T = _T()
     try:
-        if "Badi" in (calid, tcal) and "MMM" in effective_text(ty, text, cname):
-            return {"skip": "text months with the 19-month Badi calendar (outside the property's quantifier)"}
         pat = create(ty, text, cname, tcal if ty in ("date", "datetime") else None)
     except T.InvalidPatternError as e:
         return fail("valid-pattern-rejected", f"{PCLS[ty]} pattern {text!r} (culture {cname!r}) from the valid-pattern grammar was rejected: {e}")
     except Exception as e:  # noqa: BLE001
-        return fail("create-raises-" + type(e).__name__, f"{PCLS[ty]}.create({text!r}, culture {cname!r}) raised {type(e).__name__}: {e}")
+        return fail("create-raises-" + type(e).__name__, f"{PCLS[ty]}.create({text!r}, culture {cname!r})" + (f".with_calendar({tcal})" if tcal != "ISO" and ty in ("date", "datetime") else "")
+                    + f" raised {type(e).__name__}: {e}")
     eff = effective_text(ty, text, cname)
-    if "Badi" in (calid, tcal) and "MMM" in eff:
-        return {"skip": "text months with the 19-month Badi calendar (outside the property's quantifier)"}
+    # (month-name fields are paired with months 1-12 only: rep_date never picks month 13-19 for them; formatting such a
+    # month is the business of oracle format.month-names)
     info = analyse(ty, eff, cname)
     if not info.ok or not info.delimited:
         return {"skip": info.why or "not delimited"}
@@ -1174,12 +1222,131 @@ def oracle_custom(case):
             if f["key"] in ("roundtrip-value-differs", "roundtrip-parse-fails") and len(text) == 1 and (ty, text) in BUILTIN_STD and calid != "ISO" and "c" not in info.f:
                 f["key"] = "with-calendar-ignored-by-standard-pattern"
                 f["what"] += " — the standard letter resolves to the shared ISO-calendar pattern object and ignores the template value set by with_calendar"
+            if f["key"].startswith("parse-raises-") and tcal != calid:
+                f["key"] += ":calendar-from-text"
             if getattr(info, "dot_eaten", False) and f["key"] in ("roundtrip-parse-fails", "roundtrip-value-differs"):
                 f["key"] = "literal-dot-eaten-before-F"
             return f
     if done == 0:
         return {"skip": "no representable value"}
     return None
+
+
+MONTH_NAME_PATTERNS = [("date", "yyyy MMMM dd"), ("date", "uuuu-MMM-dd"), ("date", "MMMM"), ("date", "d MMM yyyy c"), ("date", "D"), ("date", "M"),
+                       ("datetime", "yyyy MMMM dd HH:mm"), ("datetime", "ld<dd MMM uuuu> lt<HH:mm>"), ("datetime", "F"), ("datetime", "f")]
+
+
+def oracle_format_total(case):
+    """formatting is a function of (pattern, culture, value): a created date pattern gives a text (the same one twice)
+    for EVERY date of every calendar, months 13-19 of the 13- and 19-month calendars included (format does not consult
+    the template value, so the ISO-template pattern is asked)"""
+    ty, text, cname, v = case
+    try:
+        pat = create(ty, text, cname)
+    except Exception:  # noqa: BLE001 — creation belongs to the creation oracles
+        return {"skip": "pattern not created"}
+    try:
+        x = mk(ty, v)
+    except Exception:  # noqa: BLE001
+        return {"skip": "value not constructible"}
+    label = f"{PCLS[ty]} {text!r} culture {cname!r}"
+    try:
+        s1 = pat.format(x)
+        s2 = pat.format(mk(ty, v))
+    except Exception as e:  # noqa: BLE001
+        return fail("format-raises-" + type(e).__name__, f"{label}: format({v!r}) raised {type(e).__name__}: {e}")
+    if not isinstance(s1, str) or s1 != s2:
+        return fail("format-nondeterministic", f"{label}: format({v!r}) gave {s1!r} then {s2!r}")
+    return None
+
+
+def format_total_cases(ctx):
+    rng = ctx.rng
+    cn = culture_names(ctx, 6)
+    pats = list(MONTH_NAME_PATTERNS)
+    for _ in range(ctx.scale(40, 2000)):
+        ty = rng.choice(["date", "datetime"])
+        t = gen_custom(rng, ty)
+        if "MMM" in t:
+            pats.append((ty, t))
+    P = _P()
+    cases = [("date", "yyyy MMMM dd", "", ("Badi", 170, 14, 1))]
+    long_cals = [c for c in cal_ids() if cal(c).get_months_in_year(cal(c).max_year - 1) > 12 or c.startswith("Hebrew")]
+    for ty, t in pats:
+        for cname in ([""] + ([rng.choice(cn[1:])] if len(cn) > 1 else [])):
+            for cid in long_cals:
+                c = cal(cid)
+                for _ in range(2):
+                    y = rng.randint(c.min_year, c.max_year)
+                    for m in range(11, c.get_months_in_year(y) + 1):
+                        d = rng.choice([1, c.get_days_in_month(y, m)])
+                        v = (cid, y, m, d) if ty == "date" else (cid, y, m, d, gen_nod(rng))
+                        try:
+                            P.LocalDate(y, m, d, c)
+                        except Exception:  # noqa: BLE001
+                            continue
+                        cases.append((ty, t, cname, v))
+    return cases
+
+
+def _culture_answers(ci):
+    """what a culture object says about names / separators / standard patterns, and what patterns built on it write"""
+    from pyoda_time.calendars import Era
+    from pyoda_time.globalization._pyoda_format_info import _PyodaFormatInfo as F
+    P, T = _P(), _T()
+    fi = F._get_format_info(ci)
+    d = fi.date_time_format
+    out = {"long_months": list(fi.long_month_names), "short_months": list(fi.short_month_names), "long_genitive": list(fi.long_month_genitive_names),
+           "short_genitive": list(fi.short_month_genitive_names), "long_days": list(fi.long_day_names), "short_days": list(fi.short_day_names),
+           "era_primary": fi.get_era_primary_name(Era.common), "era_names": list(fi.get_era_names(Era.common)),
+           "separators": [fi.date_separator, fi.time_separator, fi.am_designator, fi.pm_designator],
+           "standard": [d.short_date_pattern, d.long_date_pattern, d.month_day_pattern, d.short_time_pattern, d.long_time_pattern, d.full_date_time_pattern]}
+    v = P.LocalDate(2024, 2, 29)
+    for pt in ("D", "d", "M", "d MMMM yyyy g", "ddd d MMM yyyy"):
+        try:
+            pat = T.LocalDatePattern.create(pt, ci)
+            s = pat.format(v)
+            r = pat.parse(s)
+            out["date:" + pt] = [s, bool(r.success and r.value == v)]
+        except Exception as e:  # noqa: BLE001
+            out["date:" + pt] = "raised " + type(e).__name__
+    return out
+
+
+def oracle_calendar_switch(name):
+    """a mutable clone of culture `name` switched to the Gregorian calendar answers the same whether or not the culture
+    object it was cloned from had been asked for its names before (formatting is a function of pattern, CULTURE, value —
+    not of what was looked up earlier on another culture object)"""
+    from pyoda_time._compatibility._culture_info import CultureInfo
+    from pyoda_time._compatibility._gregorian_calendar import GregorianCalendar
+    touched = CultureInfo(name)
+    _culture_answers(touched)                       # every name table / pattern of the original is looked up
+    a = touched.clone()
+    a.date_time_format.calendar = GregorianCalendar()
+    b = CultureInfo(name).clone()                   # from an object nobody asked anything
+    b.date_time_format.calendar = GregorianCalendar()
+    ra, rb = _culture_answers(a), _culture_answers(b)
+    if ra != rb:
+        k = [k for k in rb if ra.get(k) != rb[k]]
+        return fail("calendar-switch-keeps-cached-data",
+                    f"culture {name!r}: clone().date_time_format.calendar = GregorianCalendar() after the original was used answers {k[0]} = {ra[k[0]]!r}; "
+                    f"the same clone of an unused {name!r} object answers {rb[k[0]]!r} (differing: {k})")
+    bad = [k for k, v in ra.items() if k.startswith("date:") and (isinstance(v, str) or not v[1])]
+    if bad and name not in ("",):
+        # not a history matter: the switched culture itself does not round-trip; left to roundtrip.custom
+        return None
+    return None
+
+
+def calendar_switch_cases(ctx):
+    if not have_icu():
+        return []
+    from pyoda_time._compatibility._culture_info import CultureInfo
+    from pyoda_time._compatibility._culture_types import CultureTypes
+    allc = sorted(c.name for c in CultureInfo.get_cultures(CultureTypes.ALL_CULTURES) if c.name)
+    must = [n for n in ("th-TH", "ar-SA", "fa-IR", "en-US", "ja-JP") if n in allc]
+    rest = [n for n in allc if n not in must]
+    return must + (rest if ctx.thorough else ctx.rng.sample(rest, min(len(rest), 25)))
 
 
 def _fresh(ty, text, cname, calid):
@@ -1329,6 +1496,41 @@ def iso_fields(kind, x):
     raise ValueError(kind)
 
 
+def disturb(ty, text):
+    """create (and drop) another pattern of the same type, in the invariant culture; malformed texts are fine too"""
+    try:
+        pcls(ty).create_with_invariant_culture(text)
+    except _T().InvalidPatternError:
+        pass
+
+
+def stdlib_value(kind, text):
+    """the ISO fields the standard library reads from `text`, when `text` is exactly what the standard library writes for
+    them (canonical), else None: (fields as the op prints them)"""
+    import datetime as dt
+    ty = ISO_KINDS[kind][0]
+    try:
+        if ty == "time" and kind == "time":
+            x = dt.time.fromisoformat(text)
+            if x.tzinfo is None and x.isoformat() == text:
+                return [((x.hour * 60 + x.minute) * 60 + x.second) * NPS + x.microsecond * 1000]
+        if kind == "dt":
+            x = dt.datetime.fromisoformat(text)
+            if x.tzinfo is None and x.isoformat() == text:
+                return [x.year, x.month, x.day, ((x.hour * 60 + x.minute) * 60 + x.second) * NPS + x.microsecond * 1000]
+        if kind == "inst" and text.endswith("Z"):
+            x = dt.datetime.fromisoformat(text[:-1])
+            if x.tzinfo is None and x.isoformat() == text[:-1]:
+                return [x.year, x.month, x.day, ((x.hour * 60 + x.minute) * 60 + x.second) * NPS + x.microsecond * 1000]
+        if kind == "date":
+            x = dt.date.fromisoformat(text)
+            if x.isoformat() == text:
+                return [x.year, x.month, x.day]
+    except ValueError:
+        return None
+    return None
+
+
 def impl(t):
     """the op evaluated on the real code"""
     op = t[0]
@@ -1369,15 +1571,16 @@ def impl(t):
             return f"ok {v} {c.index}" if ok else "fail"
         r, v = c._parse_int64()
         return f"ok {v} {c.index}" if r is None else "fail"
-    if op == "iso.fmt":
-        kind = t[1]
-        a = [int(x) for x in t[2:]]
-        ty, attr = ISO_KINDS[kind]
-        return hexs(builtin(ty, attr).format(iso_value(kind, a)))
-    if op == "iso.parse":
+    if op in ("iso.fmt", "iso.fmt@", "iso.parse", "iso.parse@"):
         kind = t[1]
         ty, attr = ISO_KINDS[kind]
-        r = builtin(ty, attr).parse(unhex(t[2]))
+        pat = builtin(ty, attr)
+        if op.endswith("@"):
+            disturb(ty, unhex(t[2]))       # another pattern of the family is created while `pat` is held
+            t = [op[:-1], kind] + t[3:]
+        if t[0] == "iso.fmt":
+            return hexs(pat.format(iso_value(kind, [int(x) for x in t[2:]])))
+        r = pat.parse(unhex(t[2]))
         if not r.success:
             return "fail"
         return "ok " + " ".join(str(x) for x in iso_fields(kind, r.value))
@@ -1399,6 +1602,32 @@ def oracle_text_op(t):
     import c17
     import c08
     op = t[0]
+    after = ""
+    if op in ("iso.fmt@", "iso.parse@"):
+        # the built-in pattern object is fetched, THEN another pattern of the family is created, then the object is used
+        kind = t[1]
+        ty, attr = ISO_KINDS[kind]
+        pat = builtin(ty, attr)
+        disturb(ty, unhex(t[2]))
+        after = f" (after creating {PCLS[ty]} {unhex(t[2])!r})"
+        t = [op[:-1], kind] + t[3:]
+        op = t[0]
+        f = _oracle_iso(t, pat, after)
+        if f and after:
+            f["key"] = "text-history:" + f["key"]
+        return f
+    if op in ("iso.fmt", "iso.parse"):
+        ty, attr = ISO_KINDS[t[1]]
+        return _oracle_iso(t, builtin(ty, attr), "")
+    if op.startswith("num."):
+        return oracle_num(t)
+    return None
+
+
+def _oracle_iso(t, pat, after):
+    import c17
+    import c08
+    op = t[0]
     if op == "iso.fmt":
         kind = t[1]
         a = [int(x) for x in t[2:]]
@@ -1407,10 +1636,9 @@ def oracle_text_op(t):
             x = iso_value(kind, a)
         except Exception:  # noqa: BLE001
             return None
-        pat = builtin(ty, attr)
         prec = next(b[2] for b in BUILTINS if b[0] == ty and b[1] == attr)
         v = trunc_value(ty, unmk(ty, x), prec)
-        f = roundtrip_failure(ty, pat, v, f"{PCLS[ty]}.{attr}")
+        f = roundtrip_failure(ty, pat, v, f"{PCLS[ty]}.{attr}" + after)
         if f:
             return f
         s = pat.format(x)
@@ -1429,9 +1657,16 @@ def oracle_text_op(t):
     if op == "iso.parse":
         kind = t[1]
         ty, attr = ISO_KINDS[kind]
-        return c08.parse_failure(ty, builtin(ty, attr), unhex(t[2]), f"{PCLS[ty]}.{attr}")
-    if op.startswith("num."):
-        return oracle_num(t)
+        text = unhex(t[2])
+        f = c08.parse_failure(ty, pat, text, f"{PCLS[ty]}.{attr}" + after)
+        if f:
+            return f
+        want = stdlib_value(kind, text)
+        if want is not None and not (ty in ("date", "datetime", "instant") and not 1 <= want[0] <= 9999):
+            r = pat.parse(text)
+            got = iso_fields(kind, r.value) if r.success else None
+            if got != want:
+                return fail("iso-reads-stdlib", f"{PCLS[ty]}.{attr}{after}: parse({text!r}) -> {got!r}; the standard library writes exactly this text for {want!r}")
     return None
 
 
@@ -1589,6 +1824,21 @@ def run_iso_correspondence(ctx, who):
             except UnicodeEncodeError:
                 pass
     ctx.correspond("text.iso.parse", pops, impl, oracle=oracle_text_op, driver="drv_text")
+    # the same questions with ANOTHER pattern of the family (other field widths) created between fetching the built-in
+    # pattern object and using it: the model ignores the extra token, so any carried-over state is a disagreement
+    import texthist
+    hops = []
+    kinds_std = {"time": "time", "dt": "datetime", "inst": "instant", "date": "date"}
+    for op in rng.sample(ops, min(len(ops), ctx.scale(500, 20_000))) + rng.sample(pops, min(len(pops), ctx.scale(500, 20_000))):
+        t = op.split(" ")
+        ty = ISO_KINDS[t[1]][0]
+        other = rng.choice(texthist.WIDTH_FAMILIES[ty])
+        hops.append(" ".join([t[0] + "@", t[1], hexs(other)] + t[2:]))
+    for kind, ty in kinds_std.items():
+        for _ in range(ctx.scale(40, 2000)):
+            for tx in texthist.stdlib_texts(ty, rng):
+                hops.append(f"iso.parse@ {kind} {hexs(rng.choice(texthist.WIDTH_FAMILIES[ty]))} {hexs(tx)}")
+    ctx.correspond("text.iso.history", hops, impl, oracle=oracle_text_op, driver="drv_text")
 
 
 def run_pyiso_correspondence(ctx):
@@ -1664,7 +1914,7 @@ def custom_cases(ctx):
     npat = ctx.scale(1200, 6000)
     ids = cal_ids()
     cases = [("date", 'yyyy"x"MM', "", "ISO", 1), ("date", "yyyy g", "", "Hebrew Civil", 2), ("date", "R", "", "Julian", 3),
-             ("time", "ss'.'FF", "", "ISO", 2)]
+             ("time", "ss'.'FF", "", "ISO", 2), ("date", "yyyy-MM-dd c", "", "Hijri Civil-Indian", 4, "ISO"), ("date", "yyyy MMM dd", "", "Badi", 5)]
     pats = []
     for _ in range(npat):
         ty = rng.choices(types, weights)[0]
@@ -1698,6 +1948,10 @@ def run(ctx):
     ctx.check_cases("roundtrip.builtin", cases, wrap_skips(ctx, "builtin", oracle_builtin))
     ctx.check_cases("roundtrip.builtin.with_calendar", calcases, wrap_skips(ctx, "builtin.with_calendar", oracle_builtin_calendar))
     ctx.check_cases("roundtrip.custom", custom_cases(ctx), wrap_skips(ctx, "custom", oracle_custom))
+    ctx.check_cases("culture.calendar-switch", calendar_switch_cases(ctx), oracle_calendar_switch)
+    import texthist
+    texthist.run_history(ctx, [("culture", ctx.scale(3, 60)), ("random", ctx.scale(2, 40)), ("width", ctx.scale(1, 20))])
+    ctx.check_cases("format.month-names", format_total_cases(ctx), wrap_skips(ctx, "format.month-names", oracle_format_total))
     ctx.check_cases("reformat.fixed-width", gen_reformat_cases(ctx, ctx.scale(250, 20_000)), wrap_skips(ctx, "reformat", oracle_reformat))
     ctx.assumptions.append("re-formatting is checked for patterns whose numeric fields are all fixed-width; alternative spellings of one value that the formats document (negative zero, 24:00) are excluded")
     ctx.assumptions.append("dates whose calendar day<->date mapping is not self-consistent on this tree (C01 defects: Um Al Qura tail, Badi) are not used as text inputs")
@@ -1713,9 +1967,13 @@ def replay_op(op, failure):
     src = failure.get("source", "")
     if src.startswith("oracle:"):
         name = src.split(":", 1)[1]
-        case = ast.literal_eval(op)
+        try:
+            case = ast.literal_eval(op)
+        except (ValueError, SyntaxError):
+            case = op                      # a case that is a plain string (culture name)
         fn = {"roundtrip.builtin": oracle_builtin, "roundtrip.builtin.with_calendar": oracle_builtin_calendar,
-              "roundtrip.custom": oracle_custom, "reformat.fixed-width": oracle_reformat}[name]
+              "roundtrip.custom": oracle_custom, "reformat.fixed-width": oracle_reformat, "format.month-names": oracle_format_total,
+              "culture.calendar-switch": oracle_calendar_switch, "text.history": __import__("texthist").oracle_history}[name]
         r = fn(case)
         return None if (r and "skip" in r) else r
     t = op.split(" ")
